@@ -261,6 +261,9 @@ class SymReal:
     def __rtruediv__(self, o):
         return self._bin(o, _f_div, True)
 
+    def __floordiv__(self, o):  # plain object-dtype arrays call the Python operator, not the ufunc
+        return _floor_divide(self, _py(o))
+
     def __neg__(self):
         return SymReal(_simp(-self.t))
 
@@ -768,7 +771,22 @@ def _conj(a):
 
 
 def _floor_divide(a, b):
-    raise Unsupported("floor_divide on symbolic values")
+    """numpy.floor_divide over the reals: floor(a / b); the divisor must be a non-zero finite constant."""
+    if _is_sym(a) or _is_sym(b):
+        if isinstance(b, SymReal) and _is_const(b.t):
+            b = _const_fraction(b.t)
+        if _is_sym(b):
+            raise Unsupported("floor_divide with a symbolic divisor")
+        if isinstance(b, (float, np.floating)):
+            if not np.isfinite(b):
+                raise Unsupported("floor_divide by inf/nan")
+            b = Fraction(float(b))
+        if b == 0:
+            raise Unsupported("floor_divide by zero")
+        if isinstance(a, SymBool):
+            a = a._num()
+        return sym_floor(a / b)
+    return a // b
 
 
 def _remainder(a, b):
@@ -1090,7 +1108,14 @@ def _norm(x, ord=None, axis=None, keepdims=False):
         if len(nz) == 1 and isinstance(nz[0], SymReal):
             r = abs(nz[0])
         else:
+            n_defs = len(getattr(_CTX, "sqrt_defs", None) or ())
             r = sym_sqrt(s) if isinstance(s, SymReal) else math.sqrt(s)
+            if isinstance(r, SymReal) and not _is_const(r.t) and len(getattr(_CTX, "sqrt_defs", None) or ()) > n_defs:
+                # a new auxiliary r with r >= 0 and r*r == sum e_i^2: add the ground instances |e_i| <= r of "a component is
+                # bounded by the norm" (implied by the definition; linear facts that spare the solver a non-linear derivation)
+                for e in nz:
+                    if isinstance(e, SymReal):
+                        _CTX.add_axiom(z3.And(e.t <= r.t, -r.t <= e.t))
         if keepdims:
             out = np.empty((1,) * x.ndim, dtype=object)
             out.flat[0] = r
